@@ -12,12 +12,14 @@ from . import externs_crypto  # noqa: E402,F401
 from . import spec  # noqa: E402,F401
 from . import c_gkdi  # noqa: E402,F401
 from . import c_client  # noqa: E402,F401
+from . import c_cache  # noqa: E402,F401
 from . import c_dns  # noqa: E402,F401
 from . import c_asn1  # noqa: E402,F401
 from . import c_codecs  # noqa: E402,F401
 from . import c_sd  # noqa: E402,F401
 from . import c_cms  # noqa: E402,F401
 from . import c_kek  # noqa: E402,F401
+from . import c_api  # noqa: E402,F401
 from . import c_rpc  # noqa: E402,F401
 from . import c_epm  # noqa: E402,F401
 from . import c_rpcclient  # noqa: E402,F401
